@@ -309,6 +309,11 @@ def layouts(draw, groups):
         cuts = sorted(draw(st.lists(st.integers(1, n - 1), min_size=ncuts, max_size=ncuts,
                                     unique=True))) if n > 1 else []
         bounds = [0] + cuts + [n]
+        # a run stopped before its first trial leaves a record without trials
+        # (BatchSimulation saves once before it starts): an empty chunk
+        if draw(st.integers(0, 3)) == 0:
+            at = draw(st.sampled_from(bounds))
+            bounds = sorted(bounds + [at])
         for lo, hi in zip(bounds[:-1], bounds[1:]):
             # put the chunk into an existing file or a new one
             if files and draw(st.booleans()):
